@@ -1413,35 +1413,42 @@ def float_division(ctx, rng):
 
 
 def float_execution(ctx, rng, quick):
-    """Round 5: `phase_mean()` / `anomaly()` of float64 observables with *arbitrary* doubles (not
-    dyadic toy values) against the Lean model of the computation as executed in IEEE binary64
-    (`flPhaseMeanLoop`, `flAnomalyOf`: every + / - / division rounded to nearest-even, the sum over
-    axis 0 row after row).  Theorems `ieee_phase_mean_error` / `ieee_anomaly_add_phase_mean` are
-    about exactly that model.  The property does not fix the order of summation, and NumPy uses
-    another one (pairwise, eight accumulators) for phases with 8 or more samples when the reduced
-    axis is contiguous, so an entry must either equal the model bit for bit or -- any other order --
-    lie within the bound proved for every order (`float_phase_mean_error`, `float_addback_error`),
-    evaluated in exact arithmetic.  Shapes and NaN rows must agree exactly."""
+    """Round 5: `phase_mean()` / `anomaly()` of float64 / float32 / int64 observables with
+    *arbitrary* values (not dyadic toy values) against the Lean model of the computation as
+    executed in IEEE arithmetic (`flPhaseMeanLoop`, `flAnomalyOf` with `ops64` / `ops32`: every
+    + / - / division rounded to nearest-even, the sum over axis 0 row after row; float32: the
+    division in double, rounded to binary32 again).  Theorems `ieee_phase_mean_error`,
+    `ieee_anomaly_add_phase_mean`, `ieee32_...` are about exactly these models.  The property
+    does not fix the order of summation, and NumPy uses another one (pairwise, eight
+    accumulators) for phases with 8 or more samples when the reduced axis is contiguous, so an
+    entry must either equal the model bit for bit or -- any other order -- lie within the bound
+    proved for every order (`float_phase_mean_error`, `float_addback_error`), evaluated in exact
+    arithmetic.  Shapes and NaN rows must agree exactly."""
     from pyunicorn.core import GeoGrid
     from pyunicorn.climate import ClimateData
-    u = Fraction(1, 2 ** 53)
     reqs, impl, meta = [], [], []
-    for _ in range(120 if quick else 1200):
+    for _ in range(160 if quick else 1600):
         T = rng.choice([1, 2, 3, 5, 7, 8, 9, 12, 16, 17, 24, 33, 40])
         N = rng.choice([1, 1, 2, 3, 5])
         c = rng.choice([1, 2, 3, 4, 5, 7, 12, 13])
+        dtype = rng.choice(["float64", "float64", "float32", "int64"])
         kind = rng.choice(["gauss", "gauss", "wide", "cancel", "dyadic", "neg"])
+
         def val():
+            if dtype == "int64":
+                return rng.choice([rng.randrange(-1000, 1000), rng.randrange(-2 ** 40, 2 ** 40),
+                                   rng.randrange(2 ** 52, 2 ** 53)])
             if kind == "gauss":
                 return rng.gauss(0, 1)
             if kind == "wide":
                 return rng.gauss(0, 1) * 10.0 ** rng.choice([-30, -3, 0, 3, 30])
             if kind == "cancel":
-                return rng.choice([1e16, -1e16, 1.0, -1.0, 3.14]) + rng.random()
+                big = 1e16 if dtype == "float64" else 1e7
+                return rng.choice([big, -big, 1.0, -1.0, 3.14]) + rng.random()
             if kind == "neg":
                 return -abs(rng.gauss(5, 1))
             return rng.randrange(-64, 64) / 8.0
-        obs = np.array([[val() for _ in range(N)] for _ in range(T)], dtype=float)
+        obs = np.array([[val() for _ in range(N)] for _ in range(T)], dtype=dtype)
         layout = rng.choice(["C", "F", "strided"])
         grid = GeoGrid(np.arange(T, dtype=float), np.arange(N, dtype=float),
                        np.arange(N, dtype=float), 2)
@@ -1451,16 +1458,28 @@ def float_execution(ctx, rng, quick):
                  "lat_max": float(max(N - 2, 0)), "lon_min": 0., "lon_max": float(N)}
         with quiet():
             d = ClimateData(lay_out(obs, layout), grid, c, window=w, silence_level=2)
-            O = np.array(d.observable(), dtype=float)
+            O = np.asarray(d.observable())
             pm, an = np.asarray(d.phase_mean()), np.asarray(d.anomaly())
-        reqs.append(f"flt {c} " + ";".join(enc_vec(r) for r in O))
-        impl.append((O, pm, an))
-        meta.append(f"T={O.shape[0]} N={O.shape[1]} c={c} values={kind} layout={layout} window={w}")
-        ctx.count("float64-execution:values:" + kind)
+        if O.dtype != np.dtype(dtype) or not np.all(np.isfinite(O.astype(float))):
+            ctx.count("float-execution:skipped(dtype changed or overflow)")
+            continue
+        # int64 observables: NumPy's mean converts the samples to double first (exact below 2^53)
+        FO = [[Fraction(int(x)) if dtype == "int64" else fr(x) for x in row] for row in O]
+        reqs.append(("flt32" if dtype == "float32" else "flt") + f" {c} "
+                    + ";".join(enc_vec(r) for r in FO))
+        impl.append((FO, O.shape, pm, an, dtype))
+        meta.append(f"T={O.shape[0]} N={O.shape[1]} c={c} dtype={dtype} values={kind} "
+                    f"layout={layout} window={w}")
+        ctx.count("float-execution:dtype:" + dtype)
+        ctx.count("float-execution:values:" + ("integers" if dtype == "int64" else kind))
     model = common.driver(ctx.pid, reqs)
     bad, n_exact, n_other, n_entries = [], 0, 0, 0
-    for req, (O, pm, an), m, what in zip(reqs, impl, model, meta):
+    for req, (FO, shape, pm, an, dtype), m, what in zip(reqs, impl, model, meta):
         c = int(req.split()[1])
+        if dtype == "float32":
+            u, ud = Fraction(1, 2 ** 24), Fraction(1, 2 ** 24) + Fraction(1, 2 ** 52)
+        else:
+            u = ud = Fraction(1, 2 ** 53)
         try:
             mpm, man = m.split("|")
             if (mpm.split(":")[0], man.split(":")[0]) != (f"{pm.shape[0]}x{pm.shape[1]}",
@@ -1473,7 +1492,6 @@ def float_execution(ctx, rng, quick):
         except (ValueError, IndexError):
             bad.append(f"{what}: unreadable model answer {m[:120]}")
             continue
-        FO = frac_mat(O)
         for i in range(c):
             nan_impl = bool(np.all(np.isnan(pm[i])))
             if (mrows[i] == "nan") != nan_impl:
@@ -1483,22 +1501,22 @@ def float_execution(ctx, rng, quick):
                 continue
             mrow = [Fraction(x) for x in mrows[i].split(",")]
             k = len(range(i, len(FO), c))
-            for j in range(O.shape[1]):
+            for j in range(shape[1]):
                 n_entries += 1
                 v = fr(pm[i, j])
                 if v == mrow[j]:
                     n_exact += 1
                     continue
                 n_other += 1
-                ctx.count("float64-execution:other-order:" + ("k<8" if k < 8 else "k>=8"))
+                ctx.count("float-execution:other-order:" + ("k<8" if k < 8 else "k>=8"))
                 col = [FO[t][j] for t in range(i, len(FO), c)]
-                bound = ((1 + u) ** k - 1) * sum(abs(x) for x in col) / k
+                bound = ((1 + u) ** (k - 1) * (1 + ud) - 1) * sum(abs(x) for x in col) / k
                 if abs(v - sum(col) / k) > bound:
-                    bad.append(f"{what}: phase_mean()[{i},{j}] = {float(v)!r} is neither the binary64 "
+                    bad.append(f"{what}: phase_mean()[{i},{j}] = {float(v)!r} is neither the IEEE "
                                f"model's {float(mrow[j])!r} nor within the proved bound {float(bound):.3g} "
                                f"of the exact mean {float(sum(col) / k)!r}")
-        for t in range(O.shape[0]):
-            for j in range(O.shape[1]):
+        for t in range(shape[0]):
+            for j in range(shape[1]):
                 n_entries += 1
                 a = fr(an[t, j])
                 if a == arows[t][j]:
@@ -1507,17 +1525,18 @@ def float_execution(ctx, rng, quick):
                 n_other += 1
                 mh = fr(pm[t % c, j])
                 if abs(a + mh - FO[t][j]) > u * abs(FO[t][j] - mh):
-                    bad.append(f"{what}: anomaly()[{t},{j}] = {float(a)!r} is neither the binary64 "
+                    bad.append(f"{what}: anomaly()[{t},{j}] = {float(a)!r} is neither the IEEE "
                                f"model's {float(arows[t][j])!r} nor within one rounding of "
                                f"observable - phase_mean")
     ctx.obligation(
-        f"correspondence: phase_mean() / anomaly() of float64 observables == the IEEE binary64 model "
-        f"as executed ({len(reqs)} objects, {n_entries} entries: {n_exact} bit for bit, {n_other} "
-        f"summed in another order and within the bound proved for every order)",
+        f"correspondence: phase_mean() / anomaly() of float64 / float32 / int64 observables == the "
+        f"IEEE binary64 / binary32 model as executed ({len(reqs)} objects, {n_entries} entries: "
+        f"{n_exact} bit for bit, {n_other} summed in another order and within the bound proved for "
+        f"every order)",
         "correspondence", not bad, "\n".join(bad[:5]))
-    ctx.count("float64-execution:entries", n_entries)
-    ctx.count("float64-execution:bit-exact", n_exact)
-    ctx.count("float64-execution:other-order", n_other)
+    ctx.count("float-execution:entries", n_entries)
+    ctx.count("float-execution:bit-exact", n_exact)
+    ctx.count("float-execution:other-order", n_other)
 
 
 class _Probe:
